@@ -3,6 +3,7 @@ import Ucan.Props.Tie.ChainOrderExact
 import Ucan.Props.Tie.ChainAllowed
 import Ucan.Props.Tie.ChainTime
 import Ucan.Props.Tie.ChainProofs
+import Ucan.Props.Tie.ChainProofsExact
 import Ucan.Props.Tie.ChainArgs
 import Ucan.Props.Tie.ChainLoad
 /-! (Not registered for any property: WHICH error a refused invocation gets is not part of one — `ChainAllowed` carries what the
